@@ -1,10 +1,13 @@
 import Ymq.Props.C09
 #print axioms Ymq.C09.step_gcd
-#print axioms Ymq.C09.gcd_internal_spec
-#print axioms Ymq.C09.big_gcd_spec
-#print axioms Ymq.C09.inv_mod_spec
 #print axioms Ymq.C09.reduce64_inv
+#print axioms Ymq.C09.gcd_internal_spec
 #print axioms Ymq.C09.gcd_terminates
+#print axioms Ymq.C09.big_gcd_spec
 #print axioms Ymq.C09.mulword_no_panic
-#print axioms Ymq.C09.no_panic_partial
-#print axioms Ymq.C09.no_panic_ext_partial
+#print axioms Ymq.C09.no_panic
+#print axioms Ymq.C09.no_panic_ext
+#print axioms Ymq.C09.no_panic_ext_any_width
+#print axioms Ymq.C09.no_panic_ext_domain_sharp
+#print axioms Ymq.C09.inv_mod_no_panic
+#print axioms Ymq.C09.inv_mod_spec
